@@ -273,10 +273,10 @@ def fill_meta(ids):
         title, need = "", ""
         if os.path.exists(notes_p):
             notes = open(notes_p).read().splitlines()
-            heads = [i for i, l in enumerate(notes) if re.match(r"^#+\s+Mutation\s+%d\b" % which, l)]
+            heads = [i for i, l in enumerate(notes) if re.match(r"^#+\s+Mutation\s+%d\b" % which, l) or re.match(r"^#+\s+.*break\s*%d" % which, l, re.I)]
             if heads:
                 start = heads[0]
-                end = next((i for i in range(start + 1, len(notes)) if re.match(r"^#+\s+Mutation\s+\d\b", notes[i]) or re.match(r"^##\s+(Commands|Demonstrations|Demos|Verification)", notes[i])), len(notes))
+                end = next((i for i in range(start + 1, len(notes)) if re.match(r"^#+\s+Mutation\s+\d\b", notes[i]) or re.match(r"^#+\s+.*(break|keep)\s*\d", notes[i], re.I) or re.match(r"^##\s+(Commands|Demonstrations|Demos|Verification|Side finding)", notes[i])), len(notes))
                 sec = notes[start:end]
                 title = re.sub(r"^#+\s+", "", sec[0]).strip()
                 for i, l in enumerate(sec):
